@@ -700,7 +700,7 @@ class AggregatedWorkflowRuns(base.AbstractGitHostObject):
     def state(self):
         self.remove_unwanted_workflows()
         res = [list(v) for i, v in groupby(
-            self._workflow_runs,
+            sorted(self._workflow_runs, key=lambda elem: elem['head_branch']),
             lambda elem: elem['head_branch']
         )]
 
